@@ -413,7 +413,44 @@ def gen_text_fgd(rng: random.Random, custom: bool, index: int, opts: Optional[Di
         ent.resources = gen_resources(rng, text_ok=True)
         fgd.entities[cname.casefold()] = ent
         ents.append(ent)
+    # FGD-level sections that FGD.export() writes in front of the entities (part of the text whose second export must
+    # reproduce the first).  RULE: their strings are written without escaping, so plain words/paths only; the visgroup
+    # tree is complete (every parent is 'Auto' or another group) because export() itself adds missing parents.
+    if rng.random() < 0.5:
+        from pathlib import PurePosixPath
+        if rng.random() < 0.6:
+            fgd.map_size_min, fgd.map_size_max = rng.choice(((-16384, 16384), (-32768, 32768), (-1, 1), (0, 131072), (-4096, 65536)))
+        for _ in range(rng.choice((0, 1, 3))):
+            fgd.mat_exclusions.add(PurePosixPath(pathlike(rng)))
+        if custom:
+            for _ in range(rng.choice((0, 0, 1, 2))):
+                tags = gen_tags(rng, nonempty=True)
+                for _ in range(rng.choice((1, 2))):
+                    fgd.tagged_mat_exclusions[tags].add(PurePosixPath(pathlike(rng)))
+        groups: list = []
+        used_vis: set = set()
+        for _ in range(rng.choice((0, 1, 2, 4))):
+            name = rng.choice(('Lights', 'World Details', 'NPCs', 'Tool Brushes', 'fx', 'Logic')) + rng.choice(('', ' 2', '_b'))
+            if name.casefold() in used_vis or name.casefold() == 'auto':
+                continue
+            used_vis.add(name.casefold())
+            parent = rng.choice(groups).name if groups and rng.random() < 0.5 else 'Auto'
+            vis = F.AutoVisgroup(name, parent)
+            for e in rng.sample(ents, rng.randint(0, len(ents))):
+                vis.ents.add(e.classname)
+            fgd.auto_visgroups[name.casefold()] = vis
+            groups.append(vis)
     return fgd
+
+
+def fgd_level(fgd: Any) -> dict:
+    """Snapshot of the FGD-level sections (plain data)."""
+    return {
+        'map_size': [fgd.map_size_min, fgd.map_size_max],
+        'mat_exclusions': sorted(str(p) for p in fgd.mat_exclusions),
+        'tagged_mat_exclusions': sorted([sorted(tags), sorted(str(p) for p in paths)] for tags, paths in fgd.tagged_mat_exclusions.items() if paths),
+        'auto_visgroups': sorted([key, vis.name, vis.parent or 'Auto', sorted(vis.ents)] for key, vis in fgd.auto_visgroups.items()),
+    }
 
 
 def gen_binary_fgd(rng: random.Random, index: int) -> Any:
